@@ -51,6 +51,17 @@ def next (ws : List Nat) (s : It) : Res × It :=
     if mx = 0 then (.errAllZero, s)
     else loop ws g mx (ws.length * (mx / g) + ws.length + 1) s
 
+/-- The same `for` loop from an *arbitrary* iterator position.  The fuel of `next` is calibrated for positions reached from a
+reset (`C01_fuel`); after a failed multi-option `UpsertServer` (`Pool.upsertOpts`) the level `cw` may lie far above the new
+maximum and the Go loop simply keeps sweeping until it has come down (`cw/g` extra sweeps, all under the mutex).  The loop has no
+memory besides the iterator, so restarting `next` on the iterator it returned continues it exactly. -/
+def nextFrom (ws : List Nat) : Nat → It → Res × It
+  | 0, s => (.outOfFuel, s)
+  | k + 1, s =>
+    match next ws s with
+    | (.outOfFuel, s') => nextFrom ws k s'
+    | r => r
+
 /-- results of `k` consecutive calls -/
 def run (ws : List Nat) : Nat → It → List Res
   | 0, _ => []
@@ -91,6 +102,27 @@ def upsert (p : Pool κ) (k : κ) (w : Option Nat) : Pool κ :=
     let w' := match w with | some w => if w = 0 then 1 else w | none => 1
     { keys := p.keys ++ [k], ws := p.ws ++ [w'], it := It.reset }
 
+/-- the `Weight` options of one `UpsertServer` call applied in order to a server of weight `w`: `Weight(x)` with `x < 0` fails,
+**after** the options before it have been applied (`roundrobin/options.go`: `if w < 0 { return error }; s.weight = w`) -/
+def applyWeights (w : Nat) : List Int → Nat × Bool
+  | [] => (w, true)
+  | x :: xs => if x < 0 then (w, false) else applyWeights x.toNat xs
+
+/-- `UpsertServer(u, Weight(x₁), …, Weight(xₙ))` with any number of options (`rr.go:200-222`).  Existing server: the options
+write into the live record one by one; when one fails the call returns the error **before** `resetState()`, so the weights
+written so far stay and the iterator keeps its position.  New server: the options write into a fresh record that is only appended
+(weight 0 → `defaultWeight`) when all succeeded.  The `Bool` is "no error". -/
+def upsertOpts (p : Pool κ) (k : κ) (xs : List Int) : Pool κ × Bool :=
+  match p.find k with
+  | some i =>
+    let r := applyWeights (p.ws.getD i 0) xs
+    if r.2 then ({ p with ws := p.ws.set i r.1, it := It.reset }, true)
+    else ({ p with ws := p.ws.set i r.1 }, false)
+  | none =>
+    let r := applyWeights 0 xs
+    if r.2 then ({ keys := p.keys ++ [k], ws := p.ws ++ [if r.1 = 0 then 1 else r.1], it := It.reset }, true)
+    else (p, false)
+
 /-- `RemoveServer`: `none` = "server not found", pool untouched -/
 def remove (p : Pool κ) (k : κ) : Option (Pool κ) :=
   match p.find k with
@@ -104,6 +136,12 @@ def weight (p : Pool κ) (k : κ) : Option Nat :=
 
 def nextServer (p : Pool κ) : Res × Pool κ :=
   let r := next p.ws p.it
+  (r.1, { p with it := r.2 })
+
+/-- `NextServer` from whatever position the iterator is in (each restart of `next` completes at least one sweep, which lowers
+`cw` by `g ≥ 1`, so `cw + 2` restarts suffice) -/
+def nextServerFrom (p : Pool κ) : Res × Pool κ :=
+  let r := nextFrom p.ws (p.it.cw + 2) p.it
   (r.1, { p with it := r.2 })
 
 /-- administration and selection calls, as one history -/
